@@ -228,7 +228,8 @@ def judgeable(program, frame):
                 if has_float and (big or (len(frame) and int(np.abs(pd.Series(frame[c].dropna().astype(object).tolist(), dtype="float64")).max() if len(frame[c].dropna()) else 0) >= 2 ** 53)):
                     raise Unorderable("list mixing floats and integers against 64-bit integers beyond 2**53 (compared through float64)")
             for x in vals:
-                if unit and unit != "ns" and isinstance(x, (pd.Timestamp, np.datetime64, datetime.datetime, pd.Timedelta, np.timedelta64)):
+                # (only for the list operators: a scalar comparison of a coarse time column with a finer constant is exact in pandas)
+                if unit and unit != "ns" and isinstance(v, list) and isinstance(x, (pd.Timestamp, np.datetime64, datetime.datetime, pd.Timedelta, np.timedelta64)):
                     n = norm(x)
                     if n is not None and n[1] % _UNIT_NS[unit]:
                         raise Unorderable("constant finer than the column's %s resolution" % unit)
